@@ -363,6 +363,12 @@ func (f *Frame) loopHead(li *loopInfo, pc string, st *State, order []*ssa.BasicB
 		srt, ok := vc.compSorts[k]
 		if !ok {
 			srt = dry.vc.compSorts[k]
+			if srt == "" {
+				srt = vc.prog.compSortHint(vc, k)
+			}
+			if srt == "" {
+				continue
+			}
 			vc.compSorts[k] = srt
 			vc.comp(st, k, srt) // declares initial version
 		}
@@ -760,6 +766,9 @@ func (f *Frame) load(l *Loc, st *State, pc string, pos token.Pos) string {
 		if l.Base.Kind == LocRef {
 			f.nilCheck(l.Base.Ref, pc, pos)
 			c := vc.comp(st, fieldComp(name, sty.Field(l.Field).Name()), vc.fieldCompSort(sty.Field(l.Field).Type()), sty.Field(l.Field).Type())
+			if sd, ok := vc.storeDefs[c]; ok && sd[1] == l.Base.Ref {
+				return sd[2] // read over the write just made to the same object (keeps statically known values)
+			}
 			return fmt.Sprintf("(select %s %s)", c, l.Base.Ref)
 		}
 		vc.structSort(name, sty)
@@ -820,7 +829,9 @@ func (f *Frame) store(l *Loc, v string, st *State, pc string, pos token.Pos) {
 			cn := fieldComp(name, sty.Field(l.Field).Name())
 			c := vc.comp(st, cn, vc.fieldCompSort(sty.Field(l.Field).Type()), sty.Field(l.Field).Type())
 			f.noteCompSt(st, cn)
-			st.heap[cn] = vc.define("h", vc.compSorts[cn], fmt.Sprintf("(store %s %s %s)", c, l.Base.Ref, v))
+			hv := vc.define("h", vc.compSorts[cn], fmt.Sprintf("(store %s %s %s)", c, l.Base.Ref, v))
+			vc.storeDefs[hv] = [3]string{c, l.Base.Ref, v}
+			st.heap[cn] = hv
 			return
 		}
 		vc.structSort(name, sty)
